@@ -588,16 +588,12 @@ class ReverseWeighting(WeightingModel):
             self.subscorer = subscorer
 
         def supports_block_quality(self):
-            return self.subscorer.supports_block_quality()
+            # The wrapped scorer's upper bounds become lower bounds when the
+            # score is negated, so no quality (upper bound) is available
+            return False
 
         def score(self, matcher):
             return 0 - self.subscorer.score(matcher)
-
-        def max_quality(self):
-            return 0 - self.subscorer.max_quality()
-
-        def block_quality(self, matcher):
-            return 0 - self.subscorer.block_quality(matcher)
 
 
 #class PositionWeighting(WeightingModel):
